@@ -90,7 +90,7 @@ def main():
                     m = json.load(f)
                 jobs.append(('seeded', m['property'], name, os.path.join(sdir, name, 'patch.diff')))
     if args.only:
-        jobs = [j for j in jobs if (j[1] + '/' + j[2]).startswith(args.only) or j[2] == args.only]
+        jobs = [j for j in jobs if (j[1] + '/' + j[2]).startswith(args.only) or j[2].startswith(args.only)]
 
     results = []
     for kind, pid, name, path in jobs:
@@ -112,6 +112,14 @@ def main():
             if rc not in (0, 1):
                 res['output_tail'] = out[-1500:]
             results.append(res)
+            if kind == 'seeded':
+                mp = os.path.join(VERIF, 'seeded', name, 'meta.json')
+                with open(mp) as f:
+                    meta = json.load(f)
+                meta['detected_by'] = ('./check %s --tier %s' % (pid, args.tier)) if rc == 1 else None
+                meta['detection'] = {'check_exit': rc, 'signatures': sigs[:6], 'wall_s': round(wall, 1)}
+                with open(mp, 'w') as f:
+                    json.dump(meta, f, indent=1)
             print('%-7s %-4s %-40s tests=%-5s rc=%d %-9s %5.1fs %s' % (
                 kind, pid, name, tests_ok, rc, 'DETECTED' if rc == 1 else ('MISSED' if rc == 0 else 'ERROR'),
                 wall, '; '.join(sigs[:3])))
